@@ -237,7 +237,7 @@ class PreloadsSim(purity.PuritySim):
                     tree = compare.canon(catalog.perform(self.world.env, target, q, world=self.world, node_id=target))
             else:
                 tree = compare.canon(catalog.perform(self.world.env, target, q, world=self.world, node_id=target))
-        except Exception as e:  # noqa: BLE001
+        except (Exception, SystemExit) as e:  # noqa: BLE001
             tree = ("exc", type(e).__name__)
         pop = catalog.populated(obj)
         self.stats["cache_states"].add(f"{tn}:{','.join(pop)}")
@@ -363,7 +363,7 @@ class PreloadsSim(purity.PuritySim):
         try:
             catalog.perform(self.world.env, target, q, world=self.world, node_id=target)
             out = "ok"
-        except Exception as e:  # noqa: BLE001
+        except (Exception, SystemExit) as e:  # noqa: BLE001
             out = "raises " + type(e).__name__
         self.harvested = True
         self.slot_fp = None
@@ -470,9 +470,10 @@ class PreloadsSim(purity.PuritySim):
             ids.append(fid)
         if not all(i in self.world.env for i in ids):
             return
-        names = ["set_w_tilde_imaging", "set_curvature_matrix", "set_regularization_matrix_and_term", "set_operated_mapping_matrix_with_preloads"]
+        names = ["set_w_tilde_imaging", "set_curvature_matrix", "set_regularization_matrix_and_term", "set_operated_mapping_matrix_with_preloads",
+                 "set_linear_func_inversion_dicts", "set_mapper_list", "set_relocated_grid"]
         rs.shuffle(names)
-        for n in names[: rs.randrange(1, 5)]:
+        for n in names[: rs.randrange(1, 8)]:
             self.apply({"op": "read", "client": "harvester", "target": m["P"], "q": {"t": "call", "name": n, "kw": {"fit_0": {"$node": ids[0]}, "fit_1": {"$node": ids[1]}}}})
 
     def do_node(self, op):
@@ -529,7 +530,8 @@ RULE = (
     "no-preload mapping reference. Distinct = distinct SHA-1 of (recipe node kinds, operation/target-type/quantity sequence)."
 )
 STATE_MEASURE = "distinct (inversion type, frozenset of populated cached-property names) pairs observed at a read"
-EXPECTED_PROBES = ["p2_compared", "solver_failure_then_recovery", "harvest:set_curvature_matrix", "harvest:set_w_tilde_imaging"]
+EXPECTED_PROBES = ["p2_compared", "solver_failure_then_recovery", "harvest:set_curvature_matrix", "harvest:set_w_tilde_imaging", "harvest:set_linear_func_inversion_dicts",
+                   "client_uses_dataset_interface"]
 STUBS = purity.STUBS
 ASSUMPTIONS = [
     "P1/P4 compare against the mapping formalism WITHOUT preloads, built from raw bytes in the isolated reference executor; tolerances relative to the reference max-abs: 1e-10 for data vector / curvature / regularization matrices, "
